@@ -87,7 +87,19 @@ func boundName(b int) string {
 
 // Main runs the scenarios that serve property *vcommon.ID.
 func Main(level string, all []Scenario, assumptions []string) {
-	flag.Parse()
+	cov, viols := Collect(all)
+	id := *vcommon.ID
+	code, nNew := vcommon.Report(id, viols)
+	vcommon.WriteEvidence(&vcommon.Evidence{PropertyID: id, Level: level, Coverage: cov, Assumptions: assumptions, Violations: nNew})
+	os.Exit(code)
+}
+
+// Collect runs the scenarios that serve property *vcommon.ID and returns coverage and
+// violations. In worker or replay mode it does the work and exits the process.
+func Collect(all []Scenario) (map[string]any, []vcommon.Violation) {
+	if !flag.Parsed() {
+		flag.Parse()
+	}
 	id := *vcommon.ID
 	var scens []*Scenario
 	for i := range all {
@@ -151,7 +163,7 @@ func Main(level string, all []Scenario, assumptions []string) {
 			}
 		}
 		json.NewEncoder(os.Stdout).Encode(out)
-		return
+		os.Exit(0)
 	}
 	// ---- coordinator: every scenario (and every shard of its last bound) is one process
 	type jobT struct {
@@ -291,15 +303,12 @@ func Main(level string, all []Scenario, assumptions []string) {
 		samples = append(samples, "no sample (violation found before a sample was taken)")
 	}
 	cov["samples"] = samples
-	code, nNew := vcommon.Report(id, viols)
-	ev := &vcommon.Evidence{PropertyID: id, Level: level, Coverage: cov, Assumptions: assumptions, Violations: nNew}
-	vcommon.WriteEvidence(ev)
 	sort.Slice(reports, func(i, j int) bool { return reports[i].Name < reports[j].Name })
 	for _, r := range reports {
 		fmt.Printf("%-28s threads=%d bound=%-9s execs=%-8d states=%-8d transitions=%-9d end-states=%d complete=%v %.1fs\n",
 			r.Name, r.Threads, r.BoundCompleted, r.Executions, r.States, r.Transitions, len(r.Outcomes), r.Complete, r.WallS)
 	}
-	os.Exit(code)
+	return cov, viols
 }
 
 func firstLine(s string) string {
